@@ -138,7 +138,100 @@ def gen_cases(ctx):
         for sw in (0, 1):
             add("u16to", "u16to %d %d %s" % (sw, rng.randrange(1, 10), hx(us, 4)))
             add("u16from", "u16from %d %d %s" % (sw, rng.randrange(1, 10), hx(bs, 2)))
+    # -- 10. encoding recognizer: every 4-byte head over the bytes the code tests for, x tails; prefix truncations
+    alpha = [0x00, 0x3C, 0x3F, 0xFE, 0xFF, 0xEF, 0xBB, 0xBF, 0x4C, 0x6F, 0x78, 0x41]
+    tails = [[], [0x00], [0x3F, 0x00], [0x00, 0x00, 0x00, 0x3F]]
+    for a0 in alpha:
+        for a1 in alpha:
+            add("probe-2", "probe %s" % hx([a0, a1], 2))
+            for a2 in alpha:
+                add("probe-3", "probe %s" % hx([a0, a1, a2], 2))
+                for a3 in alpha:
+                    add("probe-4", "probe %s" % hx([a0, a1, a2, a3] + rng.choice(tails), 2))
+    decl = [0x3C, 0x3F, 0x78, 0x6D, 0x6C, 0x20]
+    fams = {"utf8": decl, "u16b": [x for c in decl for x in (0, c)], "u16l": [x for c in decl for x in (c, 0)],
+            "u4b": [x for c in decl for x in (0, 0, 0, c)], "u4l": [x for c in decl for x in (c, 0, 0, 0)],
+            "ebcdic": [0x4C, 0x6F, 0xA7, 0x94, 0x93, 0x40]}
+    for nm, pre in fams.items():
+        for k in range(1, len(pre) + 3):
+            add("probe-prefix", "probe %s" % hx((pre + [0x41, 0x42])[:k], 2))
+        for j in range(len(pre)):          # one byte of the prefix altered
+            q = list(pre); q[j] ^= 0x01
+            add("probe-mut", "probe %s" % hx(q + [0x41], 2))
     return cases
+
+
+# ------------------------------------------------------------------------------------------------------------
+# document level: the same document in every encoding x BOM x declaration
+# ------------------------------------------------------------------------------------------------------------
+def doc_cases(ctx, tabs):
+    """returns list of (label, bytes, expectation) ; expectation = ('ok', text) | ('fatal',) | ('any',)"""
+    rng = ctx.rng
+    out = []
+    uni_pool = [0x41, 0x7A, 0xE9, 0x3A9, 0x20AC, 0x4E2D, 0xFFFD, 0x10348, 0x10FFFF, 0x1F600, 0xD7FF, 0xE000]
+    def inv(tab):
+        m = {}
+        for b, c in enumerate(tab["from"]):
+            if c not in m and 0x20 <= c and c not in (0x3C, 0x26, 0x22, 0x27, 0x3E) and not (0x7F <= c < 0xA0):
+                m[c] = b
+        # all ASCII letters/punctuation needed for markup
+        full = {c: b for b, c in reversed(list(enumerate(tab["from"])))}
+        return m, full
+    n_docs = 6 if ctx.tier == "quick" else 60
+    for d in range(n_docs):
+        for enc in ["UTF-8", "UTF-16LE", "UTF-16BE", "UCS-4LE", "UCS-4BE", "ISO-8859-1", "US-ASCII", "WINDOWS-1252",
+                    "IBM037", "IBM1047", "IBM1140"]:
+            if enc in ("WINDOWS-1252", "IBM037", "IBM1047", "IBM1140"):
+                tab = tabs[{"WINDOWS-1252": "win1252", "IBM037": "ibm037", "IBM1047": "ibm1047", "IBM1140": "ibm1140"}[enc]]
+                m, full = inv(tab)
+                chars = [rng.choice(sorted(m)) for _ in range(6)]
+                encode = lambda s, full=full: bytes(full[ord(ch)] for ch in s)
+            elif enc == "ISO-8859-1":
+                chars = [rng.choice([0x41, 0xE9, 0xFF, 0xA0, 0x7E]) for _ in range(6)]
+                encode = lambda s: s.encode("latin-1")
+            elif enc == "US-ASCII":
+                chars = [rng.choice([0x41, 0x7E, 0x20, 0x30]) for _ in range(6)]
+                encode = lambda s: s.encode("ascii")
+            else:
+                chars = [rng.choice(uni_pool) for _ in range(6)]
+                codec = {"UTF-8": "utf-8", "UTF-16LE": "utf-16-le", "UTF-16BE": "utf-16-be", "UCS-4LE": "utf-32-le",
+                         "UCS-4BE": "utf-32-be"}[enc]
+                encode = lambda s, codec=codec: s.encode(codec)
+            txt = "".join(chr(c) for c in chars[:3])
+            att = "".join(chr(c) for c in chars[3:])
+            body = '<r a="%s">%s</r>' % (att, txt)
+            want_units = []
+            for ch in "r|" + att + "|" + txt:
+                want_units += utf16_of(ord(ch))
+            want = "ok " + hx(want_units, 4)
+            declname = {"UTF-16LE": "UTF-16", "UTF-16BE": "UTF-16", "UCS-4LE": "UCS-4", "UCS-4BE": "UCS-4"}.get(enc, enc)
+            bom = {"UTF-8": b"\xef\xbb\xbf", "UTF-16LE": b"\xff\xfe", "UTF-16BE": b"\xfe\xff",
+                   "UCS-4LE": b"\xff\xfe\x00\x00", "UCS-4BE": b"\x00\x00\xfe\xff"}.get(enc)
+            matching = '<?xml version="1.0" encoding="%s"?>' % declname
+            # (a) matching declaration, no BOM
+            out.append(("decl-match/" + enc, encode(matching + body), ("ok", want)))
+            # (b) BOM, with and without declaration
+            if bom:
+                # without a declaration the property only speaks about UTF-8/UTF-16 (XML 1.0 4.3.3); UCS-4 without a
+                # declaration is outside the statement ("... and with a matching encoding declaration")
+                if not enc.startswith("UCS-4"):
+                    out.append(("bom-nodecl/" + enc, bom + encode(body), ("ok", want)))
+                out.append(("bom-decl/" + enc, bom + encode(matching + body), ("ok", want)))
+            if enc == "UTF-8":
+                out.append(("nobom-nodecl/UTF-8", encode(body), ("ok", want)))
+            # (c) contradictory declaration: the declared family differs from the detected one
+            contra = {"UTF-8": ["UTF-16", "UCS-4"], "UTF-16LE": ["UTF-8", "UCS-4", "ISO-8859-1"],
+                      "UTF-16BE": ["UTF-8", "UCS-4", "US-ASCII"], "UCS-4LE": ["UTF-8", "UTF-16"], "UCS-4BE": ["UTF-8", "UTF-16"],
+                      "IBM037": ["UTF-16"], "ISO-8859-1": ["UTF-16", "UCS-4"]}.get(enc, [])
+            for cn in contra:
+                bad = '<?xml version="1.0" encoding="%s"?>' % cn
+                out.append(("decl-contra/%s-as-%s" % (enc, cn), encode(bad + body), ("fatal",)))
+                if bom:
+                    out.append(("bom-decl-contra/%s-as-%s" % (enc, cn), bom + encode(bad + body), ("fatal",)))
+            # non-ASCII bytes under a US-ASCII declaration must be rejected
+            if enc == "ISO-8859-1":
+                out.append(("decl-contra/latin1-as-ascii", ('<?xml version="1.0" encoding="US-ASCII"?><r a="x">\xe9</r>').encode("latin-1"), ("fatal",)))
+    return out
 
 
 def run_bin(binpath, lines):
@@ -258,6 +351,7 @@ def run(ctx):
     try:
         T.gen_utf8()
         T.gen_tables()
+        T.gen_recognizer()
     except Exception as e:
         ctx.note("translator failed: %r" % (e,))
         ctx.violation("translator", {"what": "translator can no longer read the transcoder tables", "error": repr(e)},
@@ -388,6 +482,31 @@ def run(ctx):
                               "(witness `tabfrom ibm1047 1 15`)")
         else:
             ctx.violation("F24", {"request": cases[k][1], "impl": impl[k], "what": "IBM1047 0x15 decodes to LF"})
+    # document level: same content in every encoding x BOM x declaration (oracle: XML 1.0 4.3.3 / App. F as
+    # written in doc_cases; exploration that supports the tie of the recognizer + transcoders at the parser level)
+    if not ctx.replay:
+        tabs = T.gen_tables()
+        dcs = doc_cases(ctx, tabs)
+        rcd, dout, derr = run_bin(xh, ["parse " + hx(list(b), 2) for _, b, _ in dcs])
+        dk = {}
+        if rcd != 0 or len(dout) != len(dcs):
+            ctx.violation("harness-crash", {"what": "harness crashed on document-level cases", "stderr": derr[-1500:]})
+        else:
+            for (label, b, exp), got in zip(dcs, dout):
+                ctx.count()
+                ctx.distinct(("doc", label, bytes(b)))
+                dk[label.split("/")[0]] = dk.get(label.split("/")[0], 0) + 1
+                bad = None
+                if exp[0] == "ok" and got != exp[1]:
+                    bad = "document content differs or was rejected"
+                if exp[0] == "fatal" and not (got.startswith("fatal") or got.startswith("reported-error")):
+                    bad = "contradictory/illegal encoding declaration was not reported"
+                if bad:
+                    ctx.violation("doc", {"request": "parse " + hx(list(b), 2), "label": label, "impl": got,
+                                          "expected": exp, "what": bad})
+                    break
+            ctx.coverage["input_distribution"].update({"doc:" + k: v for k, v in dk.items()})
+            ctx.sample({"kind": "doc/" + dcs[0][0], "bytes": hx(list(dcs[0][1]), 2), "impl": dout[0]})
     # 6. a failed obligation: run the refuter (here: the sweeps above are the search); report
     if proof_broken and not ctx.violations:
         ctx.violation("obligation", {"what": "Coq obligation no longer checks and no failing input was found by the "
